@@ -1,0 +1,15 @@
+//go:build !verif
+
+package evaluator
+
+import (
+	"github.com/Syuparn/pangaea/ast"
+	"github.com/Syuparn/pangaea/object"
+)
+
+// verifEnabled is false unless the `verif` build tag is set;
+// the guarded block in Eval is then removed by the compiler.
+const verifEnabled = false
+
+func verifEnter(node ast.Node, env *object.Env) {}
+func verifLeave(node ast.Node)                  {}
